@@ -76,6 +76,25 @@ def inject(rng, case, victim, fault, hist):
         else:
             pl = pl[:rng.randrange(len(pl))]
         pk[i] = rebuild(pk[i], bytes(pl))
+    elif fault == "short-record" and data:
+        # a segment that carries whole application records is overwritten, length unchanged, by a well-framed record that is shorter
+        # than any cipher's per-record overhead, followed by a filler record: the framing of the rest of the stream stays intact
+        cands = []
+        for i in data:
+            pl = readback.parse_frame(pk[i]["frame"])["payload"]
+            if len(pl) >= 48 and pl[0] == 23 and 5 + int.from_bytes(pl[3:5], "big") == len(pl):
+                cands.append(i)
+        if cands:
+            i = rng.choice(cands)
+            pl = readback.parse_frame(pk[i]["frame"])["payload"]
+            n = rng.choice([0, 1, 7, 8, 15, 16, 17, 23, 24, 31, 36])
+            n = min(n, len(pl) - 10)
+            ver = bytes(pl[1:3])
+            short = b"\x17" + ver + n.to_bytes(2, "big") + bytes(rng.randrange(256) for _ in range(n))
+            rest = len(pl) - len(short) - 5
+            filler = b"\x17" + ver + rest.to_bytes(2, "big") + bytes(rng.randrange(256) for _ in range(rest))
+            pk[i] = rebuild(pk[i], short + filler)
+            hist["short-record.n=%d" % n] += 1
     elif fault == "foreign-http":
         nz = pool.noise(rng, collections.Counter(), idx=9)
         while not nz.packets or readback.parse_frame(nz.packets[0]["frame"])["kind"] != "tcp":
@@ -90,9 +109,19 @@ def inject(rng, case, victim, fault, hist):
             p[0] = rng.choice([p[0], 0xc0 | (p[0] & 0x3f), 0x40 | (p[0] & 0x3f), 0xff, 0x80])
             if n >= 5 and rng.randrange(2):
                 p[1:5] = rng.choice([b"\x00\x00\x00\x01", b"\x00\x00\x00\x00", b"\x6b\x33\x43\xcf"])
+            if n >= 7 and rng.randrange(3) == 0:
+                # a well-formed looking QUIC v1 long header with a zero-length DCID: Initial, 0-RTT, Handshake or Retry
+                p[0] = 0xc0 | (rng.randrange(4) << 4) | (p[0] & 0x0f)
+                p[1:6] = b"\x00\x00\x00\x01\x00"
+                hist["foreign=long-header-empty-dcid"] += 1
             srv = bool(rng.randrange(2))
             a, b = (s, c) if srv else (c, s)
             extra.append({"ts": 0, "frame": synth.udp_frame(a.mac, b.mac, a.ip, b.ip, a.port, b.port, bytes(p)), "isserver": srv, "len": 0})
+        # and always the four QUIC v1 long-header types with a zero-length DCID, from these unrelated addresses
+        for t in range(4):
+            body = bytes([0xc0 | (t << 4)]) + b"\x00\x00\x00\x01\x00\x08" + bytes(rng.randrange(256) for _ in range(8 + 40))
+            c2, s2 = tlsgen.endpoints(rng, bool(rng.randrange(2)), server_port=rng.choice([443, 4433]), idx=10 + t)     # each from addresses of its own
+            extra.insert(rng.randrange(len(extra) + 1), {"ts": 0, "frame": synth.udp_frame(c2.mac, s2.mac, c2.ip, s2.ip, c2.port, s2.port, body), "isserver": False, "len": 0})
         pk = insert_foreign(rng, pk, extra)
     return pk, keylog
 
@@ -135,7 +164,7 @@ def main():
     fails, disagreements, known = [], [], []
     n = 10 if ck.tier == "quick" else 150
     n_model = 16 if ck.tier == "quick" else 200
-    faults = ["delete-packet", "cut-before", "cut-after", "remove-keys", "random-keys", "unknown-suite", "flip-bit", "overwrite", "shorten", "foreign-http", "foreign-udp"]
+    faults = ["delete-packet", "cut-before", "cut-after", "remove-keys", "random-keys", "unknown-suite", "flip-bit", "overwrite", "shorten", "short-record", "short-record", "short-record", "foreign-http", "foreign-udp"]
     for i in range(n):
         conns = []
         k = rng.choice([2, 3, 4])
@@ -143,7 +172,16 @@ def main():
             if rng.randrange(5) < 2:
                 conns.append(pool.quic_conn(rng, hist, idx=j + 1, napp=rng.choice([3, 6])))
             else:
-                conns.append(pool.tls_conn(rng, table, hist, idx=j + 1, nrec=rng.choice([2, 5]), reclen=rng.choice([1, 40, 300])))
+                conns.append(pool.tls_conn(rng, table, hist, idx=j + 1, nrec=rng.choice([2, 5]), reclen=rng.choice([1, 40, 300]),
+                                           schedule=rng.choice(["records", "records", "whole", "mss", "random", "small"])))
+        if i % 3 == 0:
+            # a QUIC connection whose client uses a zero-length connection ID (what browsers do): nothing but addresses identifies its datagrams
+            conns.append(pool.quic_conn(rng, hist, idx=k + 2, napp=6, client_cid_len=0, server_cid_len=rng.choice([0, 8])))
+        # always one TLS <= 1.2 connection whose application records travel in segments of their own (target of the short-record fault)
+        code = rng.choice([0x002F, 0xC02F, 0xC030, 0x009C, 0xCCA8, 0x003C, 0x000A, 0xC0AC])
+        from ref import iana_ref, tls_ref
+        vers = [v for v in tls_ref.valid_versions(code, iana_ref.denote(table[code])) if v != "TLS13"]
+        conns.append(pool.tls_conn(rng, table, hist, idx=k + 1, code=code, ver=rng.choice(vers), nrec=4, reclen=rng.choice([100, 300]), schedule="records"))
         case = pool.build(rng, conns, hist)
         args = [[], ["-a"], []][i % 3]
         st0, out0 = impl.run(case.capture, case.keylog, args)
@@ -153,11 +191,13 @@ def main():
         base = by_flow(out0)
         for fault in faults:
             victim = rng.choice(conns)
-            if fault == "unknown-suite" and victim.kind != "tls":
+            if fault in ("unknown-suite", "short-record") and victim.kind != "tls":
                 tl = [c for c in conns if c.kind == "tls"]
                 if not tl:
                     continue
                 victim = tl[0]
+            if fault == "short-record":
+                victim = conns[-1]
             pk, keylog = inject(rng, case, victim, fault, hist)
             cap = capgen.to_pcapng(pk)
             hist["fault=%s/%s" % (fault, victim.kind)] += 1
